@@ -1149,6 +1149,7 @@ def rule_overwrite(ctx):
 
 def rules(tier):
     from . import c13, bitorder
-    from . import blockmean
-    return [blockmean.make_offset_rule("R-C03-blockoffset", lambda f: f["d"]["krate"] in ("linfa", "linfa_clustering", "linfa_bayes", "linfa_linear", "linfa_logistic", "linfa_svm", "linfa_trees", "linfa_elasticnet", "linfa_reduction", "linfa_pls", "linfa_ftrl", "linfa_nn"), "the predictors of the workspace"),
+    from . import blockmean, permspace
+    return [permspace.make_rule("R-C03-permspace", lambda f: f["d"]["krate"] in ("linfa", "linfa_linear", "linfa_trees", "linfa_nn", "linfa_clustering", "linfa_svm", "linfa_bayes", "linfa_logistic"), "the predictors of the workspace"),
+            blockmean.make_offset_rule("R-C03-blockoffset", lambda f: f["d"]["krate"] in ("linfa", "linfa_clustering", "linfa_bayes", "linfa_linear", "linfa_logistic", "linfa_svm", "linfa_trees", "linfa_elasticnet", "linfa_reduction", "linfa_pls", "linfa_ftrl", "linfa_nn"), "the predictors of the workspace"),
             bitorder.make_rule("R-C03-bitorder", {"linfa"}, 1, "the linfa crate (the probabilities the composed models select by)"), rule_forms, rule_shape, rule_rowlocal, rule_noint, rule_composite, rule_overwrite, c13.rule_decision]
